@@ -44,6 +44,13 @@ fn pick_u64(rng: &mut StdRng, around: u64) -> u64 {
 }
 
 fn hostile_key(rng: &mut StdRng) -> String {
+    // a third: 1-4 characters over a mixed-width alphabet (1, 2, 3 and 4-byte characters): keys whose multi-byte characters
+    // straddle the byte length of the listener prefixes subscribed on the victim ("a€" vs prefix "ab", "sv€" vs "svc:")
+    if rng.random_range(0..3) == 0 {
+        let alpha = ["a", "b", "k", "e", "y", "s", "v", "c", ":", "é", "€", "😀"];
+        let n = rng.random_range(1..=4);
+        return (0..n).map(|_| alpha[rng.random_range(0..alpha.len())]).collect();
+    }
     match rng.random_range(0..9) {
         0 => String::new(),
         1 => "a".into(),
@@ -295,6 +302,22 @@ pub async fn run_case(seed: u64, i: u64, verbose: bool) -> CaseOut {
         }
     }
     let mut cc = w.slots[victim].cc.take().unwrap();
+    // the application has subscribed to key changes (two cases in three): whatever keys hostile deltas carry, dispatching
+    // to the listeners must not panic either
+    let events_seen = Arc::new(std::sync::atomic::AtomicUsize::new(0));
+    let _listeners: Vec<chitchat::ListenerHandle> = if i % 3 != 2 {
+        ["", "a", "ab", "k", "ke", "key", "é", "a€", "sv", "svc:", "😀", "ya"]
+            .iter()
+            .map(|p| {
+                let n = events_seen.clone();
+                cc.subscribe_event(*p, move |_ev: chitchat::KeyChangeEvent| {
+                    n.fetch_add(1, std::sync::atomic::Ordering::Relaxed);
+                })
+            })
+            .collect()
+    } else {
+        vec![]
+    };
     let seq_len = rng.random_range(1..=20);
     let mut novel_left = 40usize;
     let mut log: Vec<String> = vec![];
@@ -414,6 +437,12 @@ pub async fn run_case(seed: u64, i: u64, verbose: bool) -> CaseOut {
         let grace = w.cfg.dead_grace;
         let mut steps: Vec<(String, Option<Vec<u8>>)> = vec![];
         steps.push((format!("syn naming the zombie at heartbeat {h0}"), Some(crate::craft::syn_bytes(&cluster, &[WDigestEntry { id: z.clone(), heartbeat: h0, last_gc: 0, max_version: 0 }]))));
+        // ... and a delta that gives it a dozen key-values with hostile keys (each one is dispatched to the listeners)
+        let mut zops = vec![WOp::Node { id: z.clone(), last_gc: 0, from: 0 }];
+        for v in 1..=12u64 {
+            zops.push(WOp::Kv { key: hostile_key(&mut rng), value: "v".into(), version: v, status: if v % 5 == 0 { 2 } else { 0 } });
+        }
+        steps.push(("ack giving the zombie twelve hostile keys".into(), Some(crate::craft::ack_bytes(&zops))));
         steps.push(("eval".into(), None));
         steps.push(("advance-grace".into(), None));
         steps.push(("eval".into(), None));
@@ -456,6 +485,7 @@ pub async fn run_case(seed: u64, i: u64, verbose: bool) -> CaseOut {
             Err(p) => out.findings.push(Finding::new(&["C09"], "hostile.syn_panic", format!("case {i}: creating a SYN after the hostile sequence panicked: {p}"))),
         }
     }
+    out.c.add("listener_events_during_hostile_sequences", events_seen.load(std::sync::atomic::Ordering::Relaxed) as u64);
     out.sample = json!({"case": i, "victim_state_members": cc.node_states().len(), "sequence": log});
     out.replay["sequence"] = json!(log);
     if verbose {
